@@ -69,6 +69,29 @@ def open_race(kind, mode):
                             % (kind, g, sc, last), prog)
 
 
+def inflight(reopened, mode):
+    """a view opened while a write is in flight (single insert held after its journal append; batch held after its first
+    item) must read the same before and after that write completes — on a fresh and on a recovered database (the snapshot
+    tracker of a reopened database is built by Database::recover)"""
+    from common import run_fjv
+    L = ["open %s" % mode, "ks h0 alpha", "put h0 61 01", "put h0 62 02"]
+    if reopened:
+        L += ["reopen", "ks h0 alpha"]
+    L += ["pausepoint ks.after_journal 1 hold", "thread w put h0 6b 0b &", "waitpause ks.after_journal",
+          "snap s0 open", "scan s0 h0 fwd all", "pausepoint ks.after_journal 1 off", "release ks.after_journal", "sleep 150",
+          "thread w get - h0 6b", "scan s0 h0 fwd all",
+          "pausepoint batch.after_item 1 hold", "thread w batch - h0:p:71:01 h0:p:72:02 h0:p:73:03 &", "waitpause batch.after_item",
+          "snap s1 open", "scan s1 h0 fwd all", "pausepoint batch.after_item 1 off", "release batch.after_item", "sleep 150",
+          "thread w get - h0 73", "scan s1 h0 fwd all", "scan s0 h0 fwd all"]
+    prog = "\n".join(L) + "\n"
+    o, raw, rc = run_fjv(prog, env_extra={"FJV_SYNC_TIMEOUT_MS": "8000"}, timeout=90)
+    idx = [i + 1 for i, l in enumerate(L) if l.startswith("scan s")]
+    a0, a1, b0, b1, a2 = [o.get(i) for i in idx]
+    ok = (a0 == a1 == a2 == "61=01,62=02" and b0 == b1 and b0 in ("61=01,62=02,6b=0b",))
+    return None if ok else ("view opened while a write was in flight (%s database) changed: s0 %s -> %s -> %s, s1 %s -> %s"
+                            % ("recovered" if reopened else "fresh", a0, a1, a2, b0, b1), prog)
+
+
 def run(rep, tier, seed, build):
     n, nops = (240, 45) if tier == "quick" else (4000, 110)
     audit(rep, "props/C05.v", THEOREMS, build)
@@ -79,7 +102,11 @@ def run(rep, tier, seed, build):
     rr, unconf = pmap_confirm(lambda a: open_race(*a), sched, lambda x: bool(x), workers=3)
     for bad in [x for x in rr if x][:2]:
         rep.violation("# C05: %s\n%s" % bad)
-    coverage(rep, res, progs, RULE, dict(open_race_schedules=len(sched), unconfirmed_alarms=unconf))
+    sched2 = [(ro, mode) for ro in (False, True) for mode in (("plain", "occ") if tier == "quick" else ("plain", "sw", "occ"))]
+    rr2, unconf2 = pmap_confirm(lambda a: inflight(*a), sched2, lambda x: bool(x), workers=3)
+    for bad in [x for x in rr2 if x][:2]:
+        rep.violation("# C05: %s\n%s" % bad)
+    coverage(rep, res, progs, RULE, dict(open_race_schedules=len(sched), inflight_schedules=len(sched2), unconfirmed_alarms=unconf + unconf2))
 
 
 def replay(rep, path, build):
